@@ -97,6 +97,10 @@ pub struct RlCase {
     /// 3 i64::MAX s, 4 three hundred years (0 = the case's ordinary period). Callers still arrive
     /// at instants derived from the ordinary period. At most limit_for_period calls are ever
     /// admitted; all others are rejected in their arrival instant.
+    /// 5-8: a period with a sub-millisecond part: 5 = 800 us, 6 = 200 us, 7 = period + 900 us,
+    /// 8 = period + 100 us. Within one instant at most limit_for_period calls are admitted; for
+    /// the sliding log any limit+1 consecutive admissions span at least the period (rounded up
+    /// to the whole milliseconds on which callers arrive).
     #[serde(default)]
     pub period_huge: u8,
 }
@@ -298,7 +302,7 @@ fn case_strategy(tier: Tier) -> BoxedStrategy<RlCase> {
             prop::bool::weighted(0.3),
             prop::bool::weighted(0.25),
             prop_oneof![4 => Just(0u64), 1 => (0u64..64).prop_map(|k| 1 << k), 1 => any::<u64>()],
-            prop_oneof![12 => Just(0u8), 1 => 1u8..=4],
+            prop_oneof![12 => Just(0u8), 1 => 1u8..=4, 1 => 5u8..=8],
         ),
     )
         .prop_map(
@@ -422,12 +426,19 @@ async fn interp_never_ending(case: &RlCase) -> Verdict {
     let inner = Scripted::new(log.clone(), 1, move |req, _, _| {
         Step::ok(lats.get(req.id as usize).copied().unwrap_or(0))
     });
+    let fine = case.period_huge >= 5;
     let huge = match case.period_huge {
         1 => Duration::MAX,
         2 => Duration::from_secs(u64::MAX),
         3 => Duration::from_secs(i64::MAX as u64),
-        _ => Duration::from_secs(300 * 365 * 86_400),
+        4 => Duration::from_secs(300 * 365 * 86_400),
+        5 => Duration::from_micros(800),
+        6 => Duration::from_micros(200),
+        7 => Duration::from_millis(p) + Duration::from_micros(900),
+        _ => Duration::from_millis(p) + Duration::from_micros(100),
     };
+    // the period in whole milliseconds, rounded up
+    let p_up = if fine { (huge.as_micros() as u64 + 999) / 1000 } else { 0 };
     let layer = RateLimiterLayer::builder()
         .limit_for_period(limit)
         .refresh_period(huge)
@@ -447,7 +458,7 @@ async fn interp_never_ending(case: &RlCase) -> Verdict {
         acc += c.gap.ms(p);
         at[i] = acc;
     }
-    let horizon = acc + timeout + 40;
+    let horizon = acc + timeout + 40 + if fine { 2 * p_up } else { 0 };
     let mut task: Vec<Option<usize>> = vec![None; n];
     for t in 0..=horizon {
         if t > 0 {
@@ -467,6 +478,74 @@ async fn interp_never_ending(case: &RlCase) -> Verdict {
             }
         }
         sim.settle().await;
+    }
+    if fine {
+        let snap = log.snapshot();
+        let adm_t: Vec<u64> = snap
+            .iter()
+            .filter_map(|e| match e {
+                Ev::Enter { t, .. } => Some(*t),
+                _ => None,
+            })
+            .collect();
+        let wname = ["fixed window", "sliding log", "sliding counter"][case.window as usize % 3];
+        let mut k = 0;
+        while k < adm_t.len() {
+            let same = adm_t[k..].iter().take_while(|&&t| t == adm_t[k]).count();
+            if same > limit {
+                let m = format!(
+                    "{wname}, refresh_period {huge:?}: {same} calls reached the wrapped service in the single instant t={}, limit_for_period = {limit} (the surplus had no spare capacity to be admitted on)",
+                    adm_t[k]
+                );
+                v.c02.push(m.clone());
+                v.c15.push(m);
+                break;
+            }
+            k += same;
+        }
+        if case.window == 1 && v.c02.is_empty() {
+            for i in 0..adm_t.len().saturating_sub(limit) {
+                let span = adm_t[i + limit] - adm_t[i];
+                if span < p_up {
+                    v.c02.push(format!(
+                        "sliding log, refresh_period {huge:?}: admissions {}..{} ({} calls, at t={}..{}) span {span} ms, less than the period",
+                        i,
+                        i + limit,
+                        limit + 1,
+                        adm_t[i],
+                        adm_t[i + limit]
+                    ));
+                    break;
+                }
+            }
+        }
+        for i in 0..n {
+            let Some(tk) = task[i] else { continue };
+            let resolve = snap.iter().find_map(|e| match e {
+                Ev::Resolve { t, task, out } if *task == tk => Some((*t, out.clone())),
+                _ => None,
+            });
+            match resolve {
+                Some((rt, Outcome::Layer(_))) if rt > at[i] + timeout + 1 => v.c15.push(format!(
+                    "{wname}, refresh_period {huge:?}: caller {i} arrived at t={} and was rejected at t={rt}, timeout_duration {timeout} ms",
+                    at[i]
+                )),
+                None => v.c15.push(format!(
+                    "{wname}, refresh_period {huge:?}: caller {i} (arrival {}) was never decided",
+                    at[i]
+                )),
+                _ => {}
+            }
+        }
+        for (task, msg) in &sim.unexpected_panics {
+            v.c02.push(format!("{wname}, refresh_period {huge:?}: the limiter panicked in task {task}: {msg}"));
+        }
+        v.classes.push("period_with_a_sub_millisecond_part");
+        v.classes.push(["fixed", "sliding_log", "sliding_counter"][case.window as usize % 3]);
+        v.nontrivial_c02 = n > limit;
+        v.nontrivial_c15 = n > limit;
+        v.log = snap;
+        return v;
     }
     let snap = log.snapshot();
     let entered: Vec<usize> = snap
